@@ -1,5 +1,6 @@
 import PraatModel.Lemmas.Insert
 import PraatModel.Props.C07
+import PraatModel.Lemmas.Strip
 
 /-!
 # C11 — insertEntry/deleteEntry follow the selected collision policy exactly
@@ -124,6 +125,20 @@ theorem insert_replace (t : ITier Int) (hwf : t.WF) (hn : NoClose t.es) (x : Iv 
   · intro y
     rw [hfin.2.2.1 y, hmem0 y]
     simp [ov]
+
+/-- the merged label is the `-`-join of stripped labels, hence stripped: the hypothesis `hMstr` of `insert_merge`
+always holds on a well-formed tier -/
+theorem merged_label_stripped (t : ITier Int) (hwf : t.WF) (x : Iv Int) (hstr : pyStrip x.l = x.l) :
+    pyStrip (merged t x).l = (merged t x).l := by
+  unfold merged mergedIv
+  simp only
+  apply pyStrip_pyJoin
+  intro l hl
+  obtain ⟨y, hy, rfl⟩ := List.mem_map.1 hl
+  rw [mem_sortIvs] at hy
+  rcases List.mem_append.1 hy with h | h
+  · exact hwf.stripped y (List.mem_filter.1 h).1
+  · simp only [List.mem_singleton] at h; subst h; exact hstr
 
 /-- **collision, mode `merge`**: the colliding entries and the new one are replaced by one entry covering their
 joint extent, labelled with the `-`-join of all their labels in tuple order (start, end, label) -/
